@@ -309,7 +309,7 @@ def main(ctx):
     corpus = sorted(glob.glob(os.path.join(common.REPO, "example", "test", "*.ok.nmfu")) + glob.glob(os.path.join(common.REPO, "example", "*.nmfu")))
     ctx.pmap(corpus_worker, [(p, known) for p in corpus])
     n = 120 if quick else 2000
-    stop_at = time.time() + (75 if quick else 1500)
+    stop_at = time.time() + (75 if quick else 900)
     ctx.pmap(worker, [(ctx.seed * 100003 + i, n, known, stop_at, 4 if quick else 6) for i in range(common.NPROC)])
     ctx.rule = ("case = generated prefix + one of 9 end-of-input shapes (end statement, end in a concatenation, end as case clause with/without else, "
                 "under wait, in a no-match handler's case, no end pattern with closed / open-ended / optional tail) + trailing actions (hooks, sets, finish "
